@@ -332,6 +332,9 @@ public:
         m_fac(ArnoldiOpType(op, Bop), m_ncv),
         m_info(CompInfo::NotComputed)
     {
+        if (op.rows() != op.cols())
+            throw std::invalid_argument("the matrix operation must represent a square matrix");
+
         if (nev < 1 || nev > m_n - 2)
             throw std::invalid_argument("nev must satisfy 1 <= nev <= n - 2, n is the size of matrix");
 
